@@ -635,7 +635,96 @@ func scenPosWeights(r *rec, blocks int) {
 	}
 }
 
-var scenarios = []string{"sync", "async", "async-restart", "byz", "equivocate", "permute", "latesibling", "boundary", "posweights"}
+// scenDoubleVote: a validator signs two blocks ON ONE CHAIN inside one epoch with different COM bits ("votes both COM
+// and non-COM in one round: counts as non-COM"), in both orders, in epochs where its vote decides whether the epoch
+// is committed. All blocks are scripted (minted), every node imports them.
+func scenDoubleVote(r *rec, blocks int) {
+	E := int(r.net.Opt.EpochLength) // 4
+	parent := r.net.B0.Header().ID()
+	num := 0
+	step := func(who int, com bool) bool {
+		blk := r.mint(parent, who, com)
+		if blk == nil {
+			return false
+		}
+		parent = blk.Header().ID()
+		num++
+		for i := range r.net.Nodes {
+			r.deliver(i, blk)
+		}
+		return true
+	}
+	// epoch 0 (heights 1..E-1) and epoch 1: three distinct signers, no COM (quality reaches 1 at the end of epoch 1)
+	for num < 2*E-1 {
+		if !step(num%3, false) {
+			return
+		}
+	}
+	for ep := 0; num < blocks; ep++ {
+		// one epoch of E blocks: validators 0 and 1 vote COM, validator 3 votes twice with different bits
+		first := ep%2 == 0 // COM first, then non-COM; next epoch the other way round
+		pattern := []struct {
+			who int
+			com bool
+		}{{0, true}, {3, first}, {3, !first}, {1, true}}
+		if r.rng.Intn(3) == 0 { // sometimes a consistent voter instead: the epoch then IS committed
+			pattern[2].com = pattern[1].com
+		}
+		for _, p := range pattern[:E] {
+			if !step(p.who, p.com) {
+				return
+			}
+		}
+	}
+}
+
+// scenStaleFork: a side branch that forks BELOW a checkpoint which later becomes finalized is stored up to the node's
+// maximum height before that happens; its next block then arrives as the first block at a new height. It does not
+// descend from the finalized checkpoint and must be refused.
+func scenStaleFork(r *rec, _ int) {
+	E := int(r.net.Opt.EpochLength)
+	g := r.net.B0.Header().ID()
+	var trunk []*block.Block
+	parent := g
+	for len(trunk) < 4*E-1 { // heights 1 .. 4E-1: finalizes checkpoints E and 2E
+		n := len(trunk) + 1
+		blk := r.mint(parent, n%3, n >= 2*E)
+		if blk == nil {
+			return
+		}
+		trunk = append(trunk, blk)
+		parent = blk.Header().ID()
+	}
+	forkAt := 1 + r.rng.Intn(E-1) // height of the last common block, below checkpoint E
+	var side []*block.Block
+	parent = trunk[forkAt-1].Header().ID()
+	for len(side) < len(trunk)-forkAt+1 { // one block taller than the trunk
+		blk := r.mint(parent, 3, r.rng.Intn(2) == 0)
+		if blk == nil {
+			return
+		}
+		side = append(side, blk)
+		parent = blk.Header().ID()
+	}
+	for i := range r.net.Nodes {
+		for _, b := range trunk[:forkAt] {
+			r.deliver(i, b)
+		}
+		for _, b := range side[:len(side)-1] { // side branch up to the trunk's final height, before anything is finalized
+			r.deliver(i, b)
+		}
+		for _, b := range trunk[forkAt:] {
+			r.deliver(i, b)
+		}
+		r.deliver(i, side[len(side)-1]) // first block at a new height, on the stale fork
+		if i%2 == 1 {
+			r.restart(i)
+			r.deliver(i, side[len(side)-1])
+		}
+	}
+}
+
+var scenarios = []string{"sync", "async", "async-restart", "byz", "equivocate", "permute", "latesibling", "boundary", "posweights", "doublevote", "stalefork"}
 
 func runOne(scen string, seed int64, blocks int) ([]trace.Ev, runStat) {
 	rng := rand.New(rand.NewSource(seed))
@@ -668,6 +757,10 @@ func runOne(scen string, seed int64, blocks int) ([]trace.Ev, runStat) {
 		}
 	case "posweights":
 		c = config{4, 4, true, 3}
+	case "doublevote":
+		c = config{4, 2, pos, 4}
+	case "stalefork":
+		c = config{4, 2, pos, 3}
 	default:
 		panic("unknown scenario " + scen)
 	}
@@ -691,6 +784,10 @@ func runOne(scen string, seed int64, blocks int) ([]trace.Ev, runStat) {
 		scenBoundary(r, blocks)
 	case "posweights":
 		scenPosWeights(r, blocks)
+	case "doublevote":
+		scenDoubleVote(r, blocks)
+	case "stalefork":
+		scenStaleFork(r, blocks)
 	}
 	evs := r.finish()
 	return evs, r.st
